@@ -6,7 +6,11 @@ netfilter semantics written from the iptables documentation (Netfilter.lean), fo
 configuration and every packet.
 Tie: T-diff, three streams on every run
   rules   : the REAL IptablesConfigurator.Run() (repo's DependenciesStub) -> iptables-restore text,
-            must equal the Lean compiler's output line for line (v4 and v6);
+            must equal the Lean compiler's output line for line (v4 and v6), plus the log of external
+            commands with their arguments (iptables-save / iptables-restore --noflush ...);
+  env     : same, but the configuration is built the way the binary builds it: config.DefaultConfig(),
+            the real flag set (bindCmdlineFlags through the verif hook) parsing real arguments, then
+            Config.FillConfigFromEnvironment() (env variables, pod address family, /etc/resolv.conf);
   sem     : a Go reference netfilter interpreter over that REAL text vs the Lean semantics over the
             Lean-compiled rules, on boundary packets (validates Netfilter.lean by N-version);
   packets : the same interpreter over the REAL text vs the Lean *spec* (`specFate`: the capture
@@ -16,7 +20,7 @@ On break: harness `oracle` states the property's clauses in Go directly on the r
 import os
 
 THEOREMS = ["IstioModel.C20.Theorems"]
-STREAMS = ("rules", "sem", "packets")
+STREAMS = ("rules", "env", "sem", "packets")
 
 
 def _case_at(ctx, ops, i):
@@ -54,7 +58,7 @@ def oracle(ctx, stream, case_lines, rep):
         if os.path.exists(g):
             cands.append(g)
     for ops in cands:
-        st = "rules" if os.path.basename(ops).startswith("rules") else "packets"
+        st = "rules" if os.path.basename(ops).split(".")[0] in ("rules", "env") else "packets"
         out = ops + ".verdict"
         rc, log = ctx.harness("oracle", st, ops, out)
         if rc != 0 or not os.path.exists(out):
@@ -62,7 +66,7 @@ def oracle(ctx, stream, case_lines, rep):
         for i, v in enumerate(ctx.read_lines(out)):
             if v.startswith("FAIL"):
                 case = _case_at(ctx, ops, i)
-                cfg = next((l for l in case if l.startswith("cfg")), "")
+                cfg = next((l for l in case if l.startswith("cfg") or l.startswith("envcfg")), "")
                 return ("c20:" + _clause_class(cfg, v),
                         "the rules the real compiler emits violate clause '%s' for a packet" % v.split()[1],
                         {"stream": st, "ops": case, "oracle_verdict": v, "correspondence": rep})
@@ -79,7 +83,7 @@ def _oracle_all(ctx):
             if not os.path.exists(g):
                 continue
             out = os.path.join(ctx.work, os.path.basename(g) + ".verdict")
-            rc, log = ctx.harness("oracle", "rules" if st == "rules" else "packets", g, out)
+            rc, log = ctx.harness("oracle", "rules" if st in ("rules", "env") else "packets", g, out)
             if rc != 0 or not os.path.exists(out):
                 ctx.tie_broken("oracle-run:" + st, log)
                 continue
@@ -88,11 +92,123 @@ def _oracle_all(ctx):
             for i, v in enumerate(verdicts):
                 if v.startswith("FAIL"):
                     case = _case_at(ctx, g, i)
-                    cfg = next((l for l in case if l.startswith("cfg")), "")
+                    cfg = next((l for l in case if l.startswith("cfg") or l.startswith("envcfg")), "")
                     ctx.violation("c20:" + _clause_class(cfg, v),
                                   "the rules the real compiler emits violate clause '%s' for a packet" % v.split()[1],
                                   {"stream": st, "ops": case, "oracle_verdict": v}, True)
                     break
+
+
+def _live(ctx):
+    """Optional grounding on the real tools (evidence only, never a verdict): a live probe of the kernel
+    facts Netfilter.lean assumes, and acceptance of a deterministic sample of the REAL restore texts by
+    the installed iptables-restore / ip6tables-restore --noflush, both inside `unshare -n`.
+    Skipped silently when unshare / iptables-restore / a usable namespace is not available."""
+    import re
+    import shutil
+    import subprocess
+    live = {"available": False}
+    ctx.extra["live"] = live
+    if not (shutil.which("unshare") and shutil.which("iptables-restore") and shutil.which("ip6tables-restore")):
+        return
+    try:
+        ok = subprocess.run(["unshare", "-n", "iptables-restore", "--noflush"], input=b"*nat\nCOMMIT\n",
+                            capture_output=True, timeout=20).returncode == 0
+    except Exception:
+        ok = False
+    if not ok:
+        return
+    live["available"] = True
+    probe = os.path.join(os.path.dirname(os.path.dirname(os.path.abspath(__file__))), "harness", "c20", "probe.py")
+    try:
+        r = subprocess.run(["unshare", "-n", "python3", probe], capture_output=True, timeout=120, text=True)
+        facts = [l.split()[1:3] for l in r.stdout.split("\n") if l.startswith("FACT ")]
+        live["kernel_facts"] = {k: v for k, v in facts}
+        ctx.count("live.kernel_facts.ok", sum(1 for _, v in facts if v == "OK"))
+        ctx.count("live.kernel_facts.different", sum(1 for _, v in facts if v != "OK"))
+        for k, v in facts:
+            if v != "OK":
+                ctx.log("live probe: kernel fact '%s' differs from Netfilter.lean's assumption (evidence only)" % k)
+    except Exception:
+        pass
+    # acceptance of real restore texts
+    ops = os.path.join(ctx.work, "rules.gen.ops")
+    impl = os.path.join(ctx.work, "rules.run.impl")
+    if not (os.path.exists(ops) and os.path.exists(impl)):
+        return
+    o, m = ctx.read_lines(ops), ctx.read_lines(impl)
+    cases, cur = [], None
+    for i, l in enumerate(o):
+        if l.startswith("case"):
+            cur = {"v4": [], "v6": []}
+            cases.append(cur)
+        elif l.startswith("r ") and cur is not None and i < len(m) and m[i] != "none":
+            cur["v4" if l.split()[1] == "4" else "v6"].append(m[i])
+    named = re.compile(r"--(?:uid|gid)-owner (?![0-9]+( |$))")
+    tried = accepted = 0
+    rejected = []
+    for c in cases:
+        if tried >= ctx.n(40, 400):
+            break
+        text4, text6 = "\n".join(c["v4"]) + "\n", "\n".join(c["v6"]) + "\n"
+        if not c["v4"] or named.search(text4) or named.search(text6):
+            continue  # group / user names the sandbox cannot resolve
+        tried += 1
+        try:
+            script = "iptables-restore --noflush < %s" % os.path.join(ctx.work, "live.v4")
+            open(os.path.join(ctx.work, "live.v4"), "w").write(text4)
+            if c["v6"]:
+                open(os.path.join(ctx.work, "live.v6"), "w").write(text6)
+                script += " && ip6tables-restore --noflush < %s" % os.path.join(ctx.work, "live.v6")
+            r = subprocess.run(["unshare", "-n", "sh", "-c", script], capture_output=True, timeout=30, text=True)
+            if r.returncode == 0:
+                accepted += 1
+            else:
+                rejected.append((r.stderr or r.stdout).strip()[:200])
+        except Exception:
+            tried -= 1
+    live["restore_texts_tried"], live["restore_texts_accepted"] = tried, accepted
+    live["restore_rejections"] = rejected[:5]
+    ctx.count("live.restore.accepted", accepted)
+    ctx.count("live.restore.rejected", tried - accepted)
+    for msg in rejected[:3]:
+        ctx.log("live acceptance: the installed iptables-restore refused a generated text (evidence only): " + msg)
+
+
+# Observations that touch a clause of the property on configurations a user can set, reproduced on the
+# real code on every run (harness `finding`). They become KNOWN-FINDING lines once the coordinator
+# registers the fingerprint in known-findings.json; until then they are counted in the evidence only.
+OBSERVATIONS = {
+    "c20:kubevirt-ignores-outbound-exclusions":
+        "traffic entering on a KUBE_VIRT_INTERFACES interface is redirected to the outbound port by the included ranges only: "
+        "excluded destination ranges, excluded ports and loopback destinations are not honoured",
+    "c20:kubevirt-tproxy-double-capture":
+        "with KUBE_VIRT_INTERFACES in TPROXY mode one packet is handed to TPROXY (inbound port) in mangle and redirected "
+        "(outbound port) in nat",
+}
+
+
+def _observations(ctx):
+    out = os.path.join(ctx.work, "findings.out")
+    rc, log = ctx.harness("finding", out)
+    if rc != 0 or not os.path.exists(out):
+        ctx.tie_broken("finding-run", log)
+        return
+    registered = {k.get("fingerprint") for k in ctx.known if k.get("status") == "known"}
+    for l in ctx.read_lines(out):
+        f = l.split()
+        if len(f) < 2 or f[0] not in OBSERVATIONS:
+            continue
+        name = f[0].split(":", 1)[1]
+        if f[1] == "REPRODUCED":
+            ctx.count("observation.%s.reproduced" % name)
+            if f[0] in registered:
+                ctx.violation(f[0], OBSERVATIONS[f[0]], {"observation": l}, True)
+            else:
+                ctx.log("observation reproduced on the real code (not registered as known finding): " + f[0])
+        else:
+            ctx.count("observation.%s.gone" % name)
+            ctx.log("observation no longer reproduces: " + f[0])
 
 
 def _nontrivial(case_ops, case_out):
@@ -116,15 +232,19 @@ def run(ctx):
         "CONNMARK state across packets of a connection, the TPROXY policy routing (ip rule / ip route) and the nftables backend are not modelled",
     ]
     ctx.trusted.append("harness/c20/interp.go: Go reference netfilter interpreter and the Go statement of the property (oracle)")
+    ctx.trusted.append("tools/istio-iptables/pkg/cmd/zz_verif_c20.go (verif-tagged accessor for bindCmdlineFlags)")
     proved = ctx.lean_prove(THEOREMS)
     if not ctx.build_drv():
         return
     if not ctx.go_build():
         return
     ctx.diff_stream("rules", ctx.n(3000, 40000), oracle=oracle, nontrivial=_nontrivial)
+    ctx.diff_stream("env", ctx.n(1500, 20000), oracle=oracle, nontrivial=_nontrivial)
     ctx.diff_stream("sem", ctx.n(2000, 25000), oracle=oracle, nontrivial=_nontrivial)
     ctx.diff_stream("packets", ctx.n(4000, 60000), oracle=oracle, nontrivial=_nontrivial)
     _oracle_all(ctx)
+    _observations(ctx)
+    _live(ctx)
     # distribution of what the real rules did with the generated packets, and of the configuration classes
     for st in ("sem", "packets"):
         impl = os.path.join(ctx.work, "%s.run.impl" % st)
@@ -179,16 +299,18 @@ MANIFEST = {
                    "IptablesConfigurator.Run + the rule builder, REDIRECT and TPROXY, IPv4 and IPv6, DNS capture, kube-virt interfaces, "
                    "owner-group filters, drop-invalid) evaluated under a netfilter semantics written from the iptables manual gives, for "
                    "EVERY configuration and EVERY packet, exactly the fate the policy prescribes (`fate_correct`); from it: no_loop, "
-                   "outbound_exact (IFF), inbound_exact (IFF, REDIRECT and TPROXY), loopback_alone, never_chain_loop, v4_v6_same_policy, "
+                   "outbound_exact (IFF), inbound_exact (IFF, REDIRECT and TPROXY), loopback_alone, never_chain_loop, lo_journey_never_loops "
+                   "(never loop across the OUTPUT and PREROUTING hooks), rulesOf_wellFormed, v4_v6_same_policy, "
                    "proxy DNS not re-captured. The model is tied to /repo on every run: the real Run() output must equal the Lean "
                    "compiler's output line for line, and a Go reference interpreter over the real rule text must agree with both the "
                    "Lean semantics and the Lean policy on boundary packets; a Go oracle states the clauses directly on the real rules."),
     "level_note": ("Trusted: Lean kernel + {propext, Classical.choice, Quot.sound}; the hand-written compiler model (tied by line-equality "
                    "differential testing on ~3000 random configurations quick / 40000 thorough) and the netfilter semantics "
-                   "(Netfilter.lean, from the iptables manual pages; no kernel in the sandbox - cross-checked only against a second, "
-                   "independently written interpreter in the harness); harness, generators, oracle. Assumed: rules restored into empty "
+                   "(Netfilter.lean, from the iptables manual pages; cross-checked on every run against a second, independently "
+                   "written interpreter and, where unshare -n and iptables-restore exist, against live kernel probes and the real "
+                   "tool's acceptance of sampled texts - evidence only); harness, generators, oracle. Assumed: rules restored into empty "
                    "tables; sockets have owners; identities/interfaces are canonical tokens; CONNMARK state across packets, policy "
-                   "routing, nftables backend, FillConfigFromEnvironment not modelled. Five recorded corners (DNS port 53 on lo, "
+                   "routing, nftables backend, FillConfigFromEnvironment not modelled. Recorded corners (kube-virt traffic ignores outbound exclusions / is captured twice in TPROXY mode, DNS port 53 on lo, "
                    "inbound excludes ignored with an explicit list, 2nd proxy UID shadowed, GID block lacks the DNS variant, TPROXY "
                    "mode does not exempt the tunnel port) are proved as witnesses and replayed on the real rule text; none is a defect "
                    "fixed or listed."),
